@@ -649,25 +649,27 @@ def swallowed(P, R):
         if u is None:
             continue
         seen = set()
+        # (innermost functions first, each handler once)
+        pairs = []
         for f in sorted(u.funcs.values(),
                         key=lambda f: -len(f.qualname)):
-          n += sum(1 for t in au.walk_no_defs(f.node)
-                   if isinstance(t, ast.Try))
-          for t, h in _broad_handlers(f.node):
-            if id(h) in seen:
-                continue
-            seen.add(id(h))
-            where = f.qualname
+            n += sum(1 for t in au.walk_no_defs(f.node)
+                     if isinstance(t, ast.Try))
+            for t, h in _broad_handlers(f.node):
+                if id(h) not in seen:
+                    seen.add(id(h))
+                    pairs.append((f, h))
+        for f, h in pairs:
             found = True
+            what = au.src(h.type) if h.type is not None else ''
             R.violation(
-                'R-REORD', 'swallowed', where,
-                au.src(h.type) if h.type is not None else 'except',
-                f'`except {au.src(h.type) if h.type is not None else ""}` '
-                f'at line {h.lineno} catches every `Exception` raised by '
-                'the calls in its `try` block, the reordering request '
-                'among them: raised under a decorated operation, the '
-                'request never reaches the wrapper that would reorder and '
-                'repeat the operation', unit=u.rel, line=h.lineno)
+                'R-REORD', 'swallowed', f.qualname, what or 'except',
+                f'`except {what}` at line {h.lineno} catches every '
+                '`Exception` raised by the calls in its `try` block, the '
+                'reordering request among them: raised under a decorated '
+                'operation, the request never reaches the wrapper that '
+                'would reorder and repeat the operation', unit=u.rel,
+                line=h.lineno)
     if not found:
         R.holds('R-REORD', 'dd.bdd / dd._parser / dd._copy / dd.autoref',
                 f'{n} try statements: no handler around a call catches '
